@@ -196,9 +196,10 @@ def posteriorError (e : Estimator α) (score : α) : Option α :=
     some (lower + delta * linear)
   | _, _ => none
 
-/-- what `score_psms` stores: `log10(pep) as f32`, replaced by `-324` when infinite -/
-def reported {β : Type} (log10 : α → β) (isInf : β → Bool) (floorVal : β) (pep : α) : β :=
-  let r := log10 pep
+/-- what `score_psms` stores: `kde.posterior_error(score).log10() as f32` — the `log10` is taken on the
+    `f64` value and only then cast to `f32` (`cast`) — replaced by `-324.0` when that is infinite -/
+def reported {β : Type} (log10 : α → α) (cast : α → β) (isInf : β → Bool) (floorVal : β) (pep : α) : β :=
+  let r := cast (log10 pep)
   if isInf r then floorVal else r
 
 end generic
